@@ -802,6 +802,30 @@ fn cmd_c06(args: &std::collections::HashMap<String, String>) {
                 }
             }
         }
+        // the collector opened by path: meta group, then the whole data set
+        {
+            let r = catch(|| -> Result<(Value, Value), String> {
+                let mut col = dicom_object::DicomCollector::open_file(&path).map_err(|e| format!("{e}"))?;
+                let m = meta_json(col.read_file_meta().map_err(|e| format!("{e}"))?);
+                let mut o = InMemDicomObject::new_empty();
+                col.read_dataset_to_end(&mut o).map_err(|e| format!("{e}"))?;
+                Ok((m, obj_json(&o, big)))
+            });
+            n_whole += 1;
+            match r {
+                Err(p) => cls.add(format!("collector open_file: panic [pixel data: {pc}]"), json!({"fid":fid,"err":p})),
+                Ok(Err(e)) => cls.add(format!("collector open_file: error on a conforming file [pixel data: {pc}]"), json!({"fid":fid,"ts":ts,"err":e})),
+                Ok(Ok((m, ob))) => {
+                    if m != f["meta"] {
+                        cls.add("collector open_file: file meta group differs".to_string(), json!({"fid":fid,"ts":ts,"expected":f["meta"],"observed":m}));
+                    }
+                    if let Some(d) = cmp_obj_opt(&f["whole"], &ob, "", true, false) {
+                        cls.add(format!("collector open_file + read_dataset_to_end: {} [pixel data: {pc}]", diff_kind(&d)),
+                            json!({"fid":fid,"ts":ts,"detail":d,"ds":f["ds"],"observed":ob}));
+                    }
+                }
+            }
+        }
         std::fs::remove_file(&path).ok();
 
         // token readers on the data set
